@@ -153,6 +153,13 @@ def solve(pc, extra=(), timeout_ms=30000):
         if r != z3.unknown: break
         if os.environ.get('VERIF_SLOWLOG'):
             with open(os.environ['VERIF_SLOWLOG'], 'a') as f: f.write(f'; stage {i} unknown after {to} ms\n' + s.to_smt2() + '\n; ----\n')
+    if r == z3.unknown and not os.environ.get('VERIF_NO_CVC5'):
+        # last resort: a different solver (an `unsat` from cvc5 discharges the obligation; anything else stays unknown)
+        try:
+            smt2 = '(set-logic ALL)\n' + s.to_smt2()
+            cr = subprocess.run(['cvc5', '--lang', 'smt2', '--tlimit=20000'], input=smt2, capture_output=True, text=True, timeout=30)
+            if cr.stdout.strip().split('\n')[0].strip() == 'unsat' and '(error' not in cr.stdout and '(error' not in cr.stderr: r = z3.unsat
+        except Exception: pass
     dt = time.time() - t0
     return r, (s.model() if r == z3.sat else None), dt
 
